@@ -34,6 +34,10 @@ def main():
         return C.Runner(chk, a.tier, seed).run()
     except C.L.LeanInfra as e:
         print("INFRA:", e); return 2
+    except Exception:
+        import traceback
+        traceback.print_exc()
+        print("INFRA: the check itself crashed (harness error, not a verdict)"); return 2
 
 if __name__ == "__main__":
     sys.exit(main())
